@@ -38,7 +38,7 @@ from typing import Any, Dict, Iterator, List, Optional, Sequence, Set, Tuple
 from bounded.registry import standin
 
 PYTHON = "/verif/.venv/bin/python" if os.path.exists("/verif/.venv/bin/python") else sys.executable
-REPO = "/repo"
+REPO = os.environ.get("VERIF_REPO", "/repo")
 SUBPROCESS_TIMEOUT = 120
 PRINTERS = ["cfg", "subroutine-cfg", "call-graph", "human-summary", "transaction-context"]
 MODES: List[Tuple[str, List[str]]] = [
